@@ -119,6 +119,21 @@ theorem inv_notifier_own {s : St} (h : Inv s) {j : Nat} {n n' : Notifier} (hj : 
       exact h.compat i sl hi' w hw j n hj c kd r hop' hcw
     · simp [e] at hk
       exact h.compat i sl hi' w hw k m hk c kd r hop hcw
+  · -- uniq
+    intro k m hk cd c0 r hop a a' sa sa' ha ha' w hw w' hw' hcd hc hc'
+    rw [hget] at hk
+    have ha0 : s.slp[a]? = some sa := ha
+    have ha0' : s.slp[a']? = some sa' := ha'
+    by_cases e : j = k
+    · subst e; simp at hk; subst hk
+      have hop' : NOp.sig (some cd) (.onec c0) r ∈ n.ops := by
+        rcases hops with e | e
+        · rw [e] at hop; exact hop
+        · rw [e] at hop; exact List.mem_of_mem_tail hop
+      exact h.uniq j n hj cd c0 r hop' a a' sa sa' ha0 ha0' w hw w' hw' hcd hc hc'
+    · simp [e] at hk
+      exact h.uniq k m hk cd c0 r hop a a' sa sa' ha0 ha0' w hw w' hw' hcd hc hc'
+  · exact h.wsv
 
 /-- `dek` obligation of `inv_notifier_own` when the conditions are unchanged and the notifier stays pending, or stops
 being pending at a moment when no waiter with the accepted context is left in the waitset -/
@@ -232,9 +247,23 @@ theorem scanPick_none_ctx {s : St} {c : Nat} (h : scanPick s (.ctx c) = none) :
   have := h i (List.mem_reverse.mpr hW)
   simp [St.ctxOf, hi, hc] at this
 
+theorem scanPick_none_onec {s : St} {c : Nat} (h : scanPick s (.onec c) = none) :
+    ∀ (i : Nat) (sl : Sleeper), s.slp[i]? = some sl → sl.ctx = c → i ∉ s.waitset := by
+  intro i sl hi hc hW
+  simp only [scanPick, List.find?_eq_none] at h
+  have := h i (List.mem_reverse.mpr hW)
+  simp [St.ctxOf, hi, hc] at this
+
+/-- what `scanPick` finds for a predicate scan has the context the predicate asks for -/
+theorem scanPick_onec_ctx {s : St} {c x : Nat} (h : scanPick s (.onec c) = some x) : s.ctxOf x = c := by
+  simp only [scanPick] at h
+  have := List.find?_some h
+  simpa using this
+
 theorem scanPick_mem {s : St} {k : NKind} {x : Nat} (h : scanPick s k = some x) : x ∈ s.waitset := by
   cases k with
   | ctx c => exact List.mem_reverse.mp (List.mem_of_find?_eq_some h)
+  | onec c => exact List.mem_reverse.mp (List.mem_of_find?_eq_some h)
   | one => exact List.mem_of_mem_head? h
   | all => simp [scanPick] at h
   | abort => simp [scanPick] at h
@@ -242,11 +271,15 @@ theorem scanPick_mem {s : St} {k : NKind} {x : Nat} (h : scanPick s k = some x) 
 theorem accepts_ctx {c x : Nat} (h : (NKind.ctx c).accepts x = true) : x = c := by
   simp [NKind.accepts] at h; exact h.symm
 
+theorem accepts_onec {c x : Nat} (h : (NKind.onec c).accepts x = true) : x = c := by
+  simp [NKind.accepts] at h; exact h.symm
+
 /-- moving between program counters of the pending set -/
 theorem pending_keep {n n' : Notifier} (hops : n'.ops = n.ops) {pc' : NPc} (hpc' : n'.pc = pc')
     (hcase : ((pc' = .fence ∨ pc' = .test ∨ pc' = .lock ∨ pc' = .epoch) ) ∨
              (pc' = .flush ∧ (n.kind = .all ∨ n.kind = .abort)) ∨
-             ((pc' = .scan ∨ pc' = .mark) ∧ ∃ c, n.kind = .ctx c)) :
+             ((pc' = .scan ∨ pc' = .mark) ∧ ∃ c, n.kind = .ctx c) ∨
+             (pc' = .scan ∧ ∃ c, n.kind = .onec c)) :
     ∀ c x, pendingFor n c x = true → pendingFor n' c x = true := by
   intro c x hp
   unfold pendingFor at hp ⊢
@@ -256,21 +289,25 @@ theorem pending_keep {n n' : Notifier} (hops : n'.ops = n.ops) {pc' : NPc} (hpc'
     have hk : n.kind = k := by simp [Notifier.kind, heq]
     simp only [Bool.and_eq_true, beq_iff_eq] at hp
     obtain ⟨⟨hc, hacc⟩, _⟩ := hp
-    rcases hcase with e | ⟨e, h1⟩ | ⟨e, c0, h1⟩
+    rcases hcase with e | ⟨e, h1⟩ | ⟨e, c0, h1⟩ | ⟨e, c0, h1⟩
     · rcases e with e | e | e | e <;> cases k <;> simp_all [NKind.accepts]
     · rw [hk] at h1
       rcases h1 with h1 | h1 <;> subst h1 <;> simp_all
     · rw [hk] at h1; subst h1
       rcases e with e | e <;> simp_all
+    · rw [hk] at h1; subst h1
+      simp_all
   · cases hp
 
 /-- leaving the pending set of a `ctx` notification towards `unlock` when `scanPick` finds nothing -/
 theorem pending_lose {s : St} {n n' : Notifier} (hops : n'.ops = n.ops) {pc' : NPc} (hpc' : n'.pc = pc')
     (hcase : (pc' = .unlock ∧ ((n.kind = .all ∨ n.kind = .abort) → s.waitset = []) ∧
-              (∀ c, n.kind = .ctx c → scanPick s (.ctx c) = none)) ∨
+              (∀ c, n.kind = .ctx c → scanPick s (.ctx c) = none) ∧
+              (∀ c, n.kind = .onec c → scanPick s (.onec c) = none)) ∨
              ((pc' = .fence ∨ pc' = .test ∨ pc' = .lock ∨ pc' = .epoch) ) ∨
              (pc' = .flush ∧ (n.kind = .all ∨ n.kind = .abort)) ∨
-             ((pc' = .scan ∨ pc' = .mark) ∧ ∃ c, n.kind = .ctx c)) :
+             ((pc' = .scan ∨ pc' = .mark) ∧ ∃ c, n.kind = .ctx c) ∨
+             (pc' = .scan ∧ ∃ c, n.kind = .onec c)) :
     ∀ c x, pendingFor n c x = true → pendingFor n' c x = true ∨
         ∀ (i : Nat) (sl : Sleeper), s.slp[i]? = some sl → sl.ctx = x → i ∉ s.waitset := by
   intro c x hp
@@ -281,7 +318,7 @@ theorem pending_lose {s : St} {n n' : Notifier} (hops : n'.ops = n.ops) {pc' : N
     have hk : n.kind = k := by simp [Notifier.kind, heq]
     simp only [Bool.and_eq_true, beq_iff_eq] at hp
     obtain ⟨⟨hc, hacc⟩, _⟩ := hp
-    rcases hcase with ⟨e, h1, h2⟩ | e | ⟨e, h1⟩ | ⟨e, c0, h1⟩
+    rcases hcase with ⟨e, h1, h2, h3⟩ | e | ⟨e, h1⟩ | ⟨e, c0, h1⟩ | ⟨e, c0, h1⟩
     · right
       cases k with
       | all => intro i sl _ _; rw [h1 (Or.inl hk)]; simp
@@ -289,6 +326,9 @@ theorem pending_lose {s : St} {n n' : Notifier} (hops : n'.ops = n.ops) {pc' : N
       | ctx c0 =>
         have := accepts_ctx hacc; subst this
         exact scanPick_none_ctx (h2 _ hk)
+      | onec c0 =>
+        have := accepts_onec hacc; subst this
+        exact scanPick_none_onec (h3 _ hk)
       | one => simp [NKind.accepts] at hacc
     · left
       rcases e with e | e | e | e <;> cases k <;> simp_all [NKind.accepts]
@@ -298,6 +338,9 @@ theorem pending_lose {s : St} {n n' : Notifier} (hops : n'.ops = n.ops) {pc' : N
     · left
       rw [hk] at h1; subst h1
       rcases e with e | e <;> simp_all
+    · left
+      rw [hk] at h1; subst h1
+      simp_all
   · cases hp
 
 
@@ -327,7 +370,7 @@ theorem inv_notifier_gen {s : St} (h : Inv s) {j : Nat} {n n' : Notifier} (hj : 
     (hpcs : ∀ (k : Nat) (sl' : Sleeper), slp'[k]? = some sl' →
         ∃ sl, s.slp[k]? = some sl ∧ sl'.pc = sl.pc ∧ sl'.ops = sl.ops)
     (hh : holdsN n'.pc = holdsN n.pc)
-    (hnd : ws'.Nodup) (hc : c' = ws'.length)
+    (hnd : ws'.Nodup) (hc : c' = ws'.length) (hsub : ∀ x ∈ ws', x ∈ s.waitset)
     (hloc : NLoc n') (hops : n'.ops = n.ops ∨ n'.ops = n.ops.tail)
     (hslp : ∀ (k : Nat) (sl' : Sleeper), slp'[k]? = some sl' →
         SLoc (k ∈ ws') (pend (s.setN j n') k) (Unm (s.setN j n') k) sl')
@@ -374,5 +417,24 @@ theorem inv_notifier_gen {s : St} (h : Inv s) {j : Nat} {n n' : Notifier} (hj : 
       exact h.compat i sl hsl w hw' j n hj c kd r hop' hcw
     · simp [e] at hk
       exact h.compat i sl hsl w hw' k m hk c kd r hop hcw
+  · intro k m hk cd c0 r hop a a' sa sa' ha ha' w hw w' hw' hcd hc hc'
+    rw [hget] at hk
+    obtain ⟨so, hso, _, ho⟩ := hpcs a sa ha
+    obtain ⟨so', hso', _, ho'⟩ := hpcs a' sa' ha'
+    have hwo : w ∈ so.ops := by rw [← ho]; exact hw
+    have hwo' : w' ∈ so'.ops := by rw [← ho']; exact hw'
+    by_cases e : j = k
+    · subst e; simp at hk; subst hk
+      have hop' : NOp.sig (some cd) (.onec c0) r ∈ n.ops := by
+        rcases hops with e | e
+        · rw [e] at hop; exact hop
+        · rw [e] at hop; exact List.mem_of_mem_tail hop
+      exact h.uniq j n hj cd c0 r hop' a a' so so' hso hso' w hwo w' hwo' hcd hc hc'
+    · simp [e] at hk
+      exact h.uniq k m hk cd c0 r hop a a' so so' hso hso' w hwo w' hwo' hcd hc hc'
+  · intro x hx
+    obtain ⟨slx, hslx⟩ := h.wsv x (hsub x hx)
+    have hlt : x < slp'.length := by rw [hlen]; exact getElem?_lt hslx
+    exact ⟨slp'[x], List.getElem?_eq_getElem hlt⟩
 
 end TbbVerif.C02
